@@ -1,15 +1,18 @@
 """C18 extension — expression layer of the PDDL codec (coq/theories/Model/PddlExpr.v).
 
 Tie: random typed expressions (harness/gen/exprs.py World, raw and simplified) ->
-  (a) the REAL ConverterToPDDLString.walk; its text, tokenised into an S-expression, must equal the model's `print`
+  (a) the REAL ConverterToPDDLString.walk; its text must equal the model's `print_text` CHARACTER BY CHARACTER
       (None = the converter raised, or warned that a real constant is not exactly representable);
-  (b) the REAL UPPDDLReader._parse_exp on that text (pyparsing nested_expr + CustomParseResults, the world's problem,
-      an action with the world's parameters, a types map); the FNode must equal the model's `parse` of the same
-      S-expression;
+  (a') the text is put in the precondition slot of a tiny domain and goes through the REAL parse_problem_string
+      pre-processing (replace tab, lower) and the REAL domain grammar (nested_expr + ignore of ";" comments); the
+      nested token lists must equal the model's `lex_group (prep text)`;
+  (b) the REAL UPPDDLReader._parse_exp on those token lists (the world's problem, an action with the world's
+      parameters, a types map); the FNode must equal the model's `parse` of the model's tokenisation;
   (c) the real round trip must return `norm e` on the fragment `pddl_ok`, and must not change the value of the
       expression on sampled interpretations (Core/Eval inside Coq): a change of meaning is a failure of C18 itself.
 Hand-written texts outside the writer's image exercise the parser alone (unary minus, >=, >, 0/1-ary and/or/+/*,
-brackets, several variables per type group, shadowing, wrong arities).
+brackets, several variables per type group, shadowing, wrong arities) and the lexer (upper case, tabs, newlines,
+carriage returns, form feed, ";" comments, ";" inside a token, adjacent groups, unbalanced parentheses).
 """
 import warnings
 from fractions import Fraction
@@ -18,7 +21,8 @@ from harness.core import gn, glist, gopt, gpair, gstr
 from harness.ser import Names, ser_expr, ser_finterp
 from harness.gen.exprs import World
 
-IMPORTS = ["UPV.Core.Expr", "UPV.Core.Eval", "UPV.Core.Interp", "UPV.Model.PddlExpr", "UPV.Corr.Corr_C18_expr"]
+IMPORTS = ["UPV.Core.Expr", "UPV.Core.Eval", "UPV.Core.Interp", "UPV.Model.PddlExpr", "UPV.Model.PddlLex",
+           "UPV.Corr.Corr_C18_expr"]
 
 DECIMALS = [Fraction(1, 8), Fraction(1, 1024), Fraction(1, 100000), Fraction("1234567.89"), Fraction(2), Fraction(0),
             Fraction(10 ** 16), Fraction(10 ** 15), Fraction("0.1"), Fraction("12345.678901"), Fraction(3 * 10 ** 20),
@@ -37,6 +41,12 @@ HAND = [
     "(< (i0))", "(/ 1 2 3)", "(= 1)", "(exists (?x - t0) (and (b1 ?x) (exists (?y - t1) (b2 ?y ?x))))",
     "(exists (?x - t0 ?y) (b1 ?x))", "(forall (- t0) (b0))", "(forall (?x - ?y) (b0))", "(forall ((?x) - t0) (b0))",
     "(and (b0) ())", "(or () ())", "(1.5)", "(= 00012 12.000)", "(+ -0 0.0)",
+    # lexical layer: upper case, tabs, newlines, carriage returns, comments, ";" inside a token, adjacent groups
+    "(AND (B0) (Not (b1 A0)))", "(and (b0);comment (x\n (b1 a1))", "(b0;x a0)", "(and ; c1\n\t(b0)\r\n(b1 a0) )",
+    "((b0)(b0))", "(and(b0)(b1 a0))", "( ; only\n)", "(b1  a0\n\n )", ";lead\n(b0)", "(b0) ; trail", "(b0", "b0",
+    "(and (b0) ;x)\n)", "(b1\x0ca0)", "(Exists (?X - T0)\n (B1 ?X))", "(<=\t(I0)\t3)", "(b0))", "(b0) (b0)",
+    "(IMPLY (b0) (OR (b0) (B1 ?P0)))", "(= ?P0 A0)", "(;)", "(b0;)", "(and (b0) (b0) )", "(+ 1 2);(", "(;\r(b0)\n)",
+    "(b1 a0\r)", "(and (b0\r)\r(b1\ra0\r\n))", "(b1\ta0\t)",
 ]
 
 
@@ -60,28 +70,40 @@ def mangle(item):
     return name
 
 
-def tokenize(text):
-    """flat text -> nested Python lists (str = atom); None when it is not one balanced S-expression."""
-    toks = text.replace("(", " ( ").replace(")", " ) ").split()
-    stack = [[]]
-    for t in toks:
-        if t == "(":
-            stack.append([])
-        elif t == ")":
-            if len(stack) < 2:
-                return None
-            x = stack.pop()
-            stack[-1].append(x)
-        else:
-            stack[-1].append(t)
-    if len(stack) != 1 or len(stack[0]) != 1:
-        return None
-    return stack[0][0]
+def gtext(s):
+    """Coq string literal; newline / tab / CR / FF are written literally inside the literal."""
+    assert all(32 <= ord(c) < 127 or c in "\n\t\r\x0c" for c in s), repr(s)
+    return '"%s"%%string' % s.replace('"', '""')
+
+
+def real_lex(reader, text):
+    """the REAL tokenisation: the text in the precondition slot of the domain grammar, after parse_problem_string's
+    replace/lower; returns nested lists (str = atom) or None on a parse error."""
+    from unified_planning.io.up_pddl_reader import CustomParseResults
+    dom = ("(define (domain d) (:requirements :strips) (:predicates (p)) (:action a :parameters () :precondition "
+           + text + "\n :effect (p)))")
+    try:
+        # the REAL pre-processing (replace/lower) and grammar of parse_problem_string; only the model construction that
+        # follows is replaced by a capture of the grammar's result
+        reader._parse_problem = lambda domain_res, domain_str, problem_res, problem_str: (domain_res, domain_str)
+        try:
+            res, dom = reader.parse_problem_string(dom)
+        finally:
+            del reader._parse_problem
+        pre = CustomParseResults(res["actions"][0]["pre"][0])
+    except Exception:
+        return None, None, None
+
+    def conv(x):
+        if isinstance(x.value, str):
+            return x.value
+        return [conv(y) for y in x]
+    return conv(pre), pre, dom
 
 
 def gsexp(s):
     if isinstance(s, str):
-        return "(Atom %s)" % gstr(s)
+        return "(Atom %s)" % gtext(s)
     return "(SList %s)" % glist([gsexp(x) for x in s])
 
 
@@ -178,20 +200,19 @@ def run(ctx):
                 dist[tag] += 1
             else:
                 dist["hand"] += 1
-            sx = tokenize(text) if text is not None else None
-            parsed, typing = None, False
-            if sx is None:
+            sx, parsed, typing = None, None, False
+            if text is None:
                 dist["raised_print"] += e is not None
             else:
                 dist["printed"] += e is not None
-                if isinstance(sx, str):
-                    dist["atoms_not_parsed"] += 1          # a bare token is never handed to _parse_exp on its own
-                    sx_for_parse = None
+                sx, pre, dom = real_lex(reader, text)
+                if sx is None:
+                    dist["real_lex_error"] = dist.get("real_lex_error", 0) + 1
+                    if e is not None:
+                        dist["atoms_not_parsed"] += 1      # a bare token is never handed to _parse_exp on its own
                 else:
-                    sx_for_parse = sx
                     try:
-                        res = grammar.parse_string(text, parse_all=True)
-                        parsed = reader._parse_exp(w.problem, act, types_map, {}, CustomParseResults(res[0]), text)
+                        parsed = reader._parse_exp(w.problem, act, types_map, {}, pre, dom)
                         dist["parsed"] += 1
                     except (UPTypeError, UPExpressionDefinitionError):
                         typing = True
@@ -214,13 +235,13 @@ def run(ctx):
                     fl, par, ifun = w.rand_interp(undefined_rate=0.0)
                     interps.append(ser_finterp(fl, par, {}, ifun, w.objs_table(), names))
             # a bare atom / a typing rejection is not compared on the parser side: the text is withheld from the model
-            gtext = None if (sx is None) else gsexp(sx)
-            parse_side = sx is not None and not isinstance(sx, str) and not typing
+            parse_side = sx is not None and not typing
             tab = names.table()
             case = ("{| c_fl := w%d_fl; c_obj := w%d_obj; c_par := w%d_par; c_var := %s; c_ty := w%d_ty; c_e := %s; "
-                    "c_text := %s; c_parsed := %s; c_interps := %s |}") % (
+                    "c_text := %s; c_lexed := %s; c_parsed := %s; c_interps := %s |}") % (
                 wi, wi, wi, glist([gpair(gstr(v.name.lower()), gn(names.var(v))) for v in vs.values()]), wi,
-                gopt(ge), gopt(gtext), gopt(gp), glist(interps))
+                gopt(ge), gopt(None if text is None else gtext(text)), gopt(None if sx is None else gsexp(sx)), gopt(gp),
+                glist(interps))
             if wi not in preambles:
                 preambles[wi] = (
                     "Definition w%d_fl := %s.\nDefinition w%d_obj := %s.\nDefinition w%d_par := %s.\n"
@@ -257,6 +278,10 @@ def run(ctx):
             what.append("real round trip of an expression in the fragment is not norm(e)")
         if c & 8:
             what.append("re-read expression evaluates differently from the original")
+        if c & 16:
+            what.append("model lex differs from the real grammar's tokenisation")
+        if c & 32:
+            what.append("model-internal: lex (print_text e) is not print e")
         payload = dict(m)
         payload["code"] = c
         payload["model_print"] = ctx.coq_show("model_print (%s)" % cases[i], imports=IMPORTS, preamble=pre)
@@ -264,7 +289,7 @@ def run(ctx):
         payload.pop("names", None)
         ctx.fail("corr", "C18 expression codec: " + "; ".join(what) + " on " + str(m["expr"] or m["text"])[:160],
                  ["c18-expr", "print" if c & 1 else "", "parse" if c & 2 else "", "roundtrip" if c & 4 else "",
-                  "meaning-changed" if c & 8 else ""], payload, bool(c & 8))
+                  "meaning-changed" if c & 8 else "", "lex" if c & 16 else ""], payload, bool(c & 8))
         if mism >= 5:
             break
     return {"cases": len(cases), "mismatches": mism, "distribution": dist, "top_level_kinds": kinds,
